@@ -16,7 +16,64 @@ def unit_big(a):
     return stats
 
 
+TAILS = [
+    [],
+    ["  Scenario: t", "    Given y"],
+    [" @u", "  Scenario: t", "    Given y"],
+    [" @u", "", "  # c", " @v", "  Scenario Outline: o", "    Given <a>", "   @e", "   Examples:", "     | a |", "     | 1 |"],
+    [" @r", " Rule: r2", "  Background:", "    Given rb", "  @s", "  Scenario: z", "    Given w"],
+    [" Rule: r2", "  Scenario: z", "    Given w"],
+    ["   @e", "   Examples: x", "     | a |", "     | 2 |", "  Scenario: after", "    Given z"],
+    ["    And more", '     """', "      doc", '     """', "    And table", "     | c |"],
+    ["  # c", "", " @u", " Rule: r3"],
+    ["   Examples:", "   @e2", "   Examples: second", "     | a |", "  @n", "  Scenario: next"],
+]
+_TRANSITION_DOCS = None
+_ALL_DOCS = None
+
+
+def transition_documents(accepted_only=True):
+    """for every parser state (shortest real-text prefix reaching it), every kind of line, and a handful of continuations that exercise each
+    look-ahead outcome (tags for a scenario / an examples block / a rule, with and without comment and blank lines): the documents the
+    reference parser ACCEPTS.  Random structure rarely reaches the deeper states (a rule whose background ends in a doc string, followed by
+    a tagged rule ...); this makes every transition of the generated parser part of every text-level check."""
+    global _TRANSITION_DOCS
+    if not accepted_only:
+        transition_documents()
+        return _ALL_DOCS
+    if _TRANSITION_DOCS is None:
+        from vlib.refparse import ref_parse
+        from .c14 import SAMPLE, witnesses
+        from vlib.refs import KINDS
+        out, seen, every = [], set(), []
+        for s, pre in sorted(witnesses().items()):
+            for k in KINDS[1:]:
+                for ti, tail in enumerate(TAILS):
+                    text = "\n".join(pre + [SAMPLE[k]] + tail) + "\n"
+                    if text in seen:
+                        continue
+                    seen.add(text)
+                    every.append(("state-%d-%s-tail%d" % (s, k, ti), text))
+                    if ref_parse(text).accepted:
+                        out.append(("state-%d-%s-tail%d" % (s, k, ti), text))
+        _TRANSITION_DOCS = out
+        globals()["_ALL_DOCS"] = every
+    return _TRANSITION_DOCS
+
+
+def unit_transitions(a):
+    import importlib
+    mod = importlib.import_module("checks." + a["module"])
+    stats = Stats()
+    docs = transition_documents()
+    stats.notes["accepted_transition_documents"] = len(docs)
+    cases = [dict({"sub": a["sub"], "text": t, "label": "transition:" + n}, **a.get("extra", {})) for i, (n, t) in enumerate(docs) if i % a["nshards"] == a["shard"]]
+    sweep(stats, cases, getattr(mod, a["oracle"]))
+    return stats
+
+
 def run_big(ctx, module, oracle, sub, extra=None):
     ns = 16
+    ctx.units("transition-documents", unit_transitions, [{"module": module, "oracle": oracle, "sub": sub, "shard": i, "nshards": ns, "extra": extra or {}} for i in range(ns)], procs=ns)
     ctx.units("magnitude-documents", unit_big, [{"module": module, "oracle": oracle, "sub": sub, "thorough": not ctx.quick, "shard": i, "nshards": ns, "extra": extra or {}}
                                                 for i in range(ns)], procs=ns)
